@@ -279,6 +279,11 @@ func c02Exec(name, prog string, optimise bool, lines []string) c02Run1 {
 					val = "f" + canonBits(d.Get())
 				}
 			}
+			if m.Name == "t" && len(m.LabelValues) > 0 {
+				if d, ok := m.LabelValues[0].Value.(*datum.String); ok {
+					val += "/t=" + hx(d.Get())
+				}
+			}
 		}
 		res.vals = append(res.vals, fmt.Sprintf("%s/e%d", val, e1-e0))
 	}
@@ -298,6 +303,11 @@ var c02Positions = map[string]string{
 	"and":   "$1 > -100000 && E > 0 {\n    r = 1\n  }",
 	"neg":   "r = 0 - (E)",
 	"twice": "r = (E) + (E)",
+	// among strings: the number becomes text (the program then declares `text t` as well)
+	"cat":    "t = \"n\" + E\n  r = 1",
+	"catl":   "t = E + \"n\"\n  r = 1",
+	"streq":  "\"1000000\" == E {\n    r = 1\n  } else {\n    r = 2\n  }",
+	"strcat": "\"n\" + E == \"n1000000\" {\n    r = 1\n  } else {\n    r = 2\n  }",
 }
 
 func c02Run(r *runCtx, id string, f []string) {
@@ -315,7 +325,11 @@ func c02Run(r *runCtx, id string, f []string) {
 	if pos != "" {
 		stmt = strings.ReplaceAll(c02Positions[pos], "E", tree.text())
 	}
-	prog := "gauge r\n/^(-?\\d+) (-?\\d+\\.\\d+)$/ {\n  " + stmt + "\n}\n"
+	decls := "gauge r\n"
+	if strings.Contains(stmt, "t = ") {
+		decls += "text t\n"
+	}
+	prog := decls + "/^(-?\\d+) (-?\\d+\\.\\d+)$/ {\n  " + stmt + "\n}\n"
 	// the real optimiser on the parsed program
 	folded := "?"
 	if root, err := parser.Parse("c02.mtail", strings.NewReader(prog)); err == nil {
@@ -377,12 +391,12 @@ func c02Run(r *runCtx, id string, f []string) {
 func init() {
 	props["C02"] = &propImpl{
 		gen: func(g *genCtx) {
-			ints := []int64{0, 1, -1, 2, 7, -7, 3, 10, math.MaxInt64, math.MinInt64}
+			ints := []int64{0, 1, -1, 2, 7, -7, 3, 10, 1000, 1000000, -3000000, math.MaxInt64, math.MinInt64}
 			floats := []float64{0.0, 1.0, -1.0, 2.0, 0.5, -2.5, 7.0, 3.0, 5e-10, -2.5e-10, 1e-300, 5e-324, 1e300, 0.1, 0.2, 0.3}
 			ops := []string{"+", "-", "*", "/", "%", "^"}
 			lines := "3_0.5|0_0.0|-7_2.0|10_-2.5|1_2.25|2_0.3|5_1.0"
 			nEmitted := 0
-			posIndex := map[string]int{"cond": 0, "cmpl": 1, "cmpr": 2, "plus": 3, "else": 4, "float": 5, "int": 6, "and": 7, "neg": 8, "twice": 9}
+			posIndex := map[string]int{"cond": 0, "cmpl": 1, "cmpr": 2, "plus": 3, "else": 4, "float": 5, "int": 6, "and": 7, "neg": 8, "twice": 9, "cat": 10, "catl": 11, "streq": 12, "strcat": 13}
 			emit := func(n *c02Node) {
 				o := &c02Oracle{entries: map[string]bool{}}
 				n.collectConst(o)
@@ -405,8 +419,8 @@ func init() {
 				if n.kind == 'b' {
 					nEmitted++
 					if g.thorough() || nEmitted%4 == 0 {
-						for _, pos := range []string{"cond", "cmpl", "cmpr", "plus", "else", "float", "int", "and", "neg", "twice"} {
-							if g.thorough() || (nEmitted/4)%10 == posIndex[pos] {
+						for _, pos := range []string{"cond", "cmpl", "cmpr", "plus", "else", "float", "int", "and", "neg", "twice", "cat", "catl", "streq", "strcat"} {
+							if g.thorough() || (nEmitted/4)%14 == posIndex[pos] {
 								g.emit("foldpos", pos, n.rpn(), tbl, lines)
 							}
 						}
